@@ -163,6 +163,10 @@ def gen_lowwatermark(rng):
         ops.append(dict(op="user", kind="upsert", k=k))
         if rng.random() < 0.5:
             ops.append(dict(op="sleep", ms=rng.choice([1, 30, cfg["minb"]])))
+    if rng.random() < 0.6:
+        # the published progress read every millisecond across several retries (a value that is wrong only until
+        # the next round shows up here)
+        ops.append(dict(op="probes", n=rng.choice([150, 300, 450]), ms=1))
     for _ in range(rng.randint(3, 8)):
         ops.append(dict(op="sleep", ms=rng.choice([5, cfg["minb"], cfg["minb"] * 2 + 1, cfg["minb"] * 4 + 3, 450])))
         ops.append(dict(op="wait", back=0, q=True, ms=1))
